@@ -112,8 +112,16 @@ let handle = function
      | _ -> "ERR")
   | ["v1enc"; sym; key; prefix; data] ->
     let symi = int_of_string sym in
-    hex_of_bytes (Cfb.seipd1_enc (Prims.enc_block (nn sym) (bytes_of_hex key)) (n_of_int (blk_len symi)) (Prims.hash (n_of_int 2))
-                    (bytes_of_hex prefix) (bytes_of_hex data))
+    let memo = Hashtbl.create 1024 in
+    let e0 = Prims.enc_block (nn sym) (bytes_of_hex key) in
+    let e b = match Hashtbl.find_opt memo b with Some r -> r | None -> let r = e0 b in Hashtbl.add memo b r; r in
+    let bs = n_of_int (blk_len symi) in
+    let sha1 = Prims.hash (n_of_int 2) in
+    let spec = Cfb.seipd1_enc e bs sha1 (bytes_of_hex prefix) (bytes_of_hex data) in
+    (* the staged producer of C12_v1_stream_encryptor_machine_is_spec, read with varying request sizes *)
+    let req (i : BinNums.coq_N) : BinNums.coq_N = n_of_int (1 + ((int_of_n i) * 7919 + symi * 31) mod 9001) in
+    let (mo, oc) = Seipd1EncMachine.enc_run e bs sha1 req (bytes_of_hex prefix) (bytes_of_hex data) in
+    if oc = Emitter.EClean && mo = spec then hex_of_bytes spec else "MODEL-SPLIT v1enc machine /= specification"
   | ["v2enc"; sym; aead; cs; sk; salt; p] ->
     let sym = nn sym and aead = nn aead and cs = nn cs in
     let (key, iv) = Seipd2.derive hkdf256 sym aead cs (bytes_of_hex salt) (bytes_of_hex sk) in
